@@ -1,12 +1,16 @@
 #!/bin/bash
-# usage: seeddetect.sh <id> <prop>...  -- apply a stored seeded change to /repo, run the checks, undo
+# usage: seeddetect.sh <id> <prop>...
+# Applies a stored seeded change to a scratch worktree of /repo's HEAD, runs the
+# checks of the given properties against it (evidence and replays go to a scratch
+# directory), prints the outcome and removes the worktree. /repo is not touched.
 export GOFLAGS=-mod=mod GOPROXY=off GOSUMDB=off GOTOOLCHAIN=local
 id=$1; shift
+W=$(mktemp -d /tmp/seedrun_XXXXXX); rmdir $W
+git -C /repo worktree add -q --detach $W HEAD || exit 2
+trap 'git -C /repo worktree remove --force '$W' >/dev/null 2>&1; rm -rf '$W'.out' EXIT
+git -C $W apply /verif/seeded/$id/patch.diff || { echo APPLY-FAIL; exit 2; }
 cd /verif
-git -C /repo apply /verif/seeded/$id/patch.diff || { echo APPLY-FAIL; exit 2; }
 for p in "$@"; do
-  out=$(bin/gvc check --prop $p 2>&1); rc=$?
+  out=$(GVC_OUT=$W.out bin/gvc check --prop $p --repo $W 2>&1); rc=$?
   echo "== $id $p exit=$rc"; echo "$out" | egrep 'VIOLATION|obligation|broken' | head -8
 done
-git -C /repo checkout -- .
-git -C /verif checkout -- evidence 2>/dev/null
